@@ -114,7 +114,7 @@ CLAIMS.update({
     technique='Coq proof (scan separates only incomparable keys; incomparable keys never collide) + differential check of the real partition', ref='0.3 C03'),
  'C06': dict(
     text='Proof (Coq) + correspondence. Theorems: _preprocess_data keeps exactly the rows with no NULL and no na_values token in a referenced column (null_suppresses_exactly, null_in_referenced_column, '
-         'na_token_in_referenced_column) and no null is ever cast to text (null_never_becomes_text), for every frame, reference set and na_values list; at document level a statement exists iff some asserted rule has a delivered row with no NULL / na token in any referenced column (statements_come_from_null_free_rows); a NULL or na token in a join key joins with nothing, not even another NULL, in the generation rules and in the engine merge (null_join_key_joins_nothing, engine_merged_rows_have_every_join_key). What each reader hands over for a NULL is modelled '
+         'na_token_in_referenced_column) and no null is ever cast to text (null_never_becomes_text), for every frame, reference set and na_values list; at document level a statement exists iff some asserted rule has a delivered row with no NULL / na token in any referenced column (statements_come_from_null_free_rows); a NULL or na token in a join key joins with nothing, not even another NULL, in the generation rules and in the engine merge (null_join_key_joins_nothing, engine_merged_rows_have_every_join_key); for every document a NULL in a column the subject map references gives no statement through that triples map (null_in_a_subject_reference_gives_no_statement). What each reader hands over for a NULL is modelled '
          '(Model/Data.v arrive) and measured on every run over all source kinds x na_values settings x NULL positions, against the Engine model and the Spec, plus a scan of the output for null words not in the data.',
     note='Two genuine defects found by this check were repaired (fix: 52bd578, ecec88a). Readers are third-party: modelled, not verified.',
     technique='Coq proof of the null filter + ' + CORR, ref='0.3 C06'),
